@@ -16,6 +16,7 @@ const (
 	Caller    = 0
 	Watcher   = -1
 	Canceller = -2
+	Bystander = -10 // and -11: goroutines that evaluate Score while Mine runs
 	Clock     = -3
 )
 
@@ -135,6 +136,8 @@ type Config struct {
 	// of the buffer as spare capacity), the way an append-only log asks for the proof of work of each of its prefixes.
 	// Mine was handed data[:len] to read; the bytes behind it are another call's message.
 	CrowdPrefix bool `json:"crowd_prefix,omitempty"`
+	// ScoreBystanders: that many (1 or 2) other goroutines evaluate Score of a message while the Mine call is running
+	ScoreBystanders int `json:"score_bystanders,omitempty"`
 
 	dataCache []byte
 }
@@ -675,6 +678,9 @@ func GenC13(seed uint64, tier string) *Config {
 	}
 	if !c.Background && (c.Fault.Kind == "none" || c.Fault.Kind == "pre" || c.Fault.Kind == "cancel") && r.IntN(5) == 0 {
 		c.ForeignCtx = true
+	}
+	if c.BigData == 0 && r.IntN(6) == 0 {
+		c.ScoreBystanders = 1 + r.IntN(2)
 	}
 	return c
 }
